@@ -381,6 +381,9 @@ theorem readAccountName_export (n : Bytes) (rest : Bytes) (l : Option UInt8)
   simp only [Run.bind_done, Run.pure_eq]
   rw [show (0x29 : UInt8) = chRParen from rfl, expect_hit chRParen _ _ (by decide)]
   simp [strBytes]
+  intro hm
+  have := hn _ hm
+  exact absurd this (by decide)
 
 theorem readAccountName_ws (c : UInt8) (rest : Bytes) (l : Option UInt8) (h : isWhitespace c = true) :
     readAccountName ⟨c :: rest, l⟩ = readAccountName ⟨rest, some c⟩ := by
@@ -1026,6 +1029,137 @@ theorem importKeys_total (b : Bytes) : ∃ res, importKeys b = .done res := by
     simp only [h2, h3, Run.bind_done]
     cases he4 : expect r3 chRParen with
     | mk b4 r4 => exact ⟨_, rfl⟩
+
+/-! ### repaired code: imported account names carry no double quote
+
+    The writer puts the name between double quotes without escaping, so a name with a double quote
+    could not be written back.  The reader used to accept such a name when it was written as a
+    symbol (`(name a"b)`); now every account of a successful import has a name the writer can
+    handle — the name half of `Account.wellFormed`, the precondition of `keyfile_roundtrip`. -/
+
+theorem readAccountName_no_quote (r r' : Rd) (nm : Bytes)
+    (h : readAccountName r = .done ((nm, true), r')) : nm.contains 34 = false := by
+  simp only [readAccountName] at h
+  cases he : expect r chLParen with
+  | mk b r1 =>
+    rw [he] at h
+    simp only at h
+    obtain ⟨ok1, r2, h2, _⟩ := tot_readSymbolAndExpect (strBytes "name") r1
+    simp only at h2
+    obtain ⟨⟨nm', ok2⟩, r3, h3, _⟩ := tot_readPotentialStringOrSymbol r2
+    simp only [h2, h3, Run.bind_done] at h
+    cases he4 : expect r3 chRParen with
+    | mk b4 r4 =>
+      rw [he4] at h
+      simp only [Run.pure_eq, Run.done.injEq, Prod.mk.injEq, Bool.and_eq_true,
+        Bool.not_eq_true'] at h
+      obtain ⟨⟨rfl, _, hq⟩, _⟩ := h
+      exact hq
+
+/-- an account that `readAccount` reports without an error has a name without a double quote -/
+theorem readAccount_no_quote (r r' : Rd) (a : Account) (atEnd : Bool)
+    (h : readAccount r = .done ((some a, true, atEnd), r')) : a.name.contains 34 = false := by
+  simp only [readAccount] at h
+  cases he : expect r chLParen with
+  | mk b r1 =>
+    rw [he] at h
+    cases b with
+    | false => simp only [Run.pure_eq, Run.done.injEq, Prod.mk.injEq, reduceCtorEq, false_and] at h
+    | true =>
+      simp only at h
+      obtain ⟨ok1, r2, h2, _⟩ := tot_readSymbolAndExpect (strBytes "account") r1
+      simp only at h2
+      obtain ⟨⟨name, ok2⟩, r3, h3, _⟩ := tot_readAccountName r2
+      obtain ⟨⟨proto, ok3⟩, r4, h4, _⟩ := tot_readAccountProtocol r3
+      obtain ⟨⟨key, ok4⟩, r5, h5, _⟩ := tot_readPrivateKey r4
+      simp only [h2, h3, h4, h5, Run.bind_done] at h
+      cases he6 : expect r5 chRParen with
+      | mk b6 r6 =>
+        rw [he6] at h
+        simp only [Run.pure_eq, Run.done.injEq, Prod.mk.injEq, Option.some.injEq,
+          Bool.and_eq_true] at h
+        obtain ⟨⟨rfl, ⟨⟨⟨⟨_, hok2⟩, _⟩, _⟩, _⟩, _⟩, _⟩ := h
+        subst hok2
+        exact readAccountName_no_quote r2 r3 name h3
+
+theorem readAccountsLoop_no_quote :
+    ∀ (fuel : Nat) (as : List Account) (ok : Bool) (r : Rd) (res : List Account) (r' : Rd),
+      readAccountsLoop fuel as ok r = .done ((res, true), r') →
+      ok = true ∧ ((∀ a ∈ as, a.name.contains 34 = false) → ∀ a ∈ res, a.name.contains 34 = false) := by
+  intro fuel
+  induction fuel with
+  | zero => intro as ok r res r' h; simp only [readAccountsLoop, reduceCtorEq] at h
+  | succ f ih =>
+    intro as ok r res r' h
+    obtain ⟨a, ok', atEnd, r1, h1, _, _⟩ := readAccount_total r
+    simp only [readAccountsLoop, h1, Run.bind_done] at h
+    cases atEnd with
+    | true =>
+      simp only [if_true, Run.pure_eq, Run.done.injEq, Prod.mk.injEq, Bool.and_eq_true] at h
+      obtain ⟨⟨rfl, hok, _⟩, _⟩ := h
+      exact ⟨hok, fun has => has⟩
+    | false =>
+      simp only [Bool.false_eq_true, if_false] at h
+      cases a with
+      | none =>
+        obtain ⟨hok, hres⟩ := ih as (ok && ok') r1 res r' h
+        simp only [Bool.and_eq_true] at hok
+        exact ⟨hok.1, hres⟩
+      | some a =>
+        obtain ⟨hok, hres⟩ := ih (as ++ [a]) (ok && ok') r1 res r' h
+        simp only [Bool.and_eq_true] at hok
+        refine ⟨hok.1, fun has => hres ?_⟩
+        intro x hx
+        rw [List.mem_append, List.mem_singleton] at hx
+        rcases hx with hx | rfl
+        · exact has x hx
+        · have hok' := hok.2
+          subst hok'
+          exact readAccount_no_quote r r1 x false h1
+
+/-- **repaired ImportKeys**: every account of a successful import has a name without the double
+    quote (byte 34), i.e. a name that `exportKeys` writes back unchanged -/
+theorem importKeys_names_no_quote (b : Bytes) (as : List Account)
+    (h : importKeys b = .done (some as)) : ∀ a ∈ as, a.name.contains 34 = false := by
+  simp only [importKeys, readAccounts] at h
+  cases he : expect ⟨b, none⟩ chLParen with
+  | mk b0 r1 =>
+    rw [he] at h
+    simp only at h
+    obtain ⟨ok1, r2, h2, _⟩ := tot_readSymbolAndExpect (strBytes "privkeys") r1
+    simp only at h2
+    obtain ⟨⟨as', ok2⟩, r3, h3, _⟩ := readAccountsLoop_total (r2.inp.length + 1) [] true r2 (by omega)
+    simp only [h2, h3, Run.bind_done] at h
+    cases he4 : expect r3 chRParen with
+    | mk b4 r4 =>
+      rw [he4] at h
+      simp only [Run.pure_eq, Run.bind_done, Run.done.injEq] at h
+      split at h
+      · rename_i hok
+        injection h with h
+        subst h
+        simp only [Bool.and_eq_true] at hok
+        have hok2 := hok.1.2
+        subst hok2
+        exact (readAccountsLoop_no_quote _ _ _ _ _ _ h3).2 (fun a ha => by cases ha)
+      · cases h
+
+/-- in the vocabulary of the round trip: the name half of `Account.wellFormed` holds for every
+    imported account -/
+theorem importKeys_names_wellFormed (b : Bytes) (as : List Account)
+    (h : importKeys b = .done (some as)) : ∀ a ∈ as, (a.name.all fun x => !(x == chQuote)) = true := by
+  intro a ha
+  have hq := importKeys_names_no_quote b as h a ha
+  rw [List.all_eq_true]
+  intro x hx
+  cases hxe : x == chQuote with
+  | false => rfl
+  | true =>
+    have : x = 34 := eq_of_beq hxe
+    subst this
+    have : a.name.contains 34 = true := List.contains_iff_mem.mpr hx
+    rw [hq] at this
+    cases this
 
 /-! ### the wire form of a private key (ParsePrivateKey ∘ Serialize) -/
 
